@@ -279,6 +279,16 @@ fn eval_prefix(prefixes: &BTreeMap<String, Numeric>, expr: &Expr) -> Result<Nume
     }
 }
 
+/// Products of quantities keep their powers within the range that `^`
+/// accepts, like products of values do.
+fn powers_in_range(quantity: Dimensionality) -> Result<Dimensionality, String> {
+    if quantity.powers_in_range() {
+        Ok(quantity)
+    } else {
+        Err("Exponent is too big".to_string())
+    }
+}
+
 fn eval_quantity(
     base_units: &BTreeSet<BaseUnit>,
     quantities: &BTreeMap<String, Dimensionality>,
@@ -301,7 +311,7 @@ fn eval_quantity(
                 .fold(Ok(Dimensionality::default()), |acc, value| {
                     let acc = acc?;
                     let value = eval_quantity(base_units, quantities, value)?;
-                    Ok(&acc * &value)
+                    powers_in_range(&acc * &value)
                 })
         }
         Expr::BinOp(BinOpExpr {
@@ -311,7 +321,7 @@ fn eval_quantity(
         }) => {
             let left = eval_quantity(base_units, quantities, &*left)?;
             let right = eval_quantity(base_units, quantities, &*right)?;
-            Ok(&left / &right)
+            powers_in_range(&left / &right)
         }
         Expr::BinOp(BinOpExpr {
             op: BinOpType::Pow,
